@@ -179,6 +179,7 @@ type walRun struct {
 	afterCrash  bool
 	faulted     bool // a fault was injected since the last Open
 	everFaulted bool
+	dirCodec    uint64            // codec id the directory was created with (0 = not yet)
 	acked       map[uint64]string // entries acknowledged and not covered by a later DeleteRange call
 	// per-open true totals for C20
 	tot map[string]uint64
@@ -536,6 +537,19 @@ func (r *walRun) run() string {
 			armed := r.cfs != nil && r.cfs.faultIn >= 0
 			res := r.open()
 			emit(res)
+			// codec identifiers (C12)
+			reserved := r.codecID != 1 && r.codecID < 65536
+			if res == "ok" {
+				if reserved {
+					r.c.witness("C12", "reserved-codec-id-accepted", fmt.Sprintf("Open accepts the reserved codec id %d", r.codecID), r.line)
+				} else if r.dirCodec == 0 {
+					r.dirCodec = r.codecID
+				} else if r.dirCodec != r.codecID {
+					r.c.witness("C12", "foreign-codec-id-accepted", fmt.Sprintf("directory written with codec id %d opens with codec id %d", r.dirCodec, r.codecID), r.line)
+				}
+			} else if !reserved && !armed && !r.everFaulted && (r.dirCodec == 0 || r.dirCodec == r.codecID) && !r.afterCrash {
+				r.c.witness("C12", "same-codec-refused", fmt.Sprintf("Open fails although the directory was written with the same codec id %d", r.codecID), r.line)
+			}
 			if res == "ok" {
 				if r.afterCrash {
 					r.checkRecovered("crash/restart + Open")
